@@ -19,8 +19,10 @@ COMMON_NOTE = ("Trusted base: Python's ast parser; the seed tables of the abstra
                "rule is about values touched only through comparisons or about which value reaches a sink, it is decided by representative / symbolic "
                "evaluation of the source by the checker's own interpreter (signs, constants, first-order terms; sa/domains) - the analysed program is never "
                "run. Structural rules report a violation when their construct is absent: deep restructurings of an "
-               "anchored function can therefore be reported although behaviour is unchanged (measured on three rounds of behaviour-preserving refactors in "
-               "DESIGN.md section 10.8). Genuine defects that were "
+               "anchored function can therefore be reported although behaviour is unchanged (measured on four rounds of behaviour-preserving refactors in "
+               "DESIGN.md section 10.8; the refactors still reported are listed there). Besides the clauses of DESIGN.md section 5 the quick check carries the whole-tree "
+               "rule families and semantic clauses added after the seeding rounds (DESIGN.md section 10.7 and Appendix C: ownership/aliasing, dask keys and per-block "
+               "functions, forwarding, type cases, window/mesh coverage, ...), several of them shared between the properties whose code they protect. Genuine defects that were "
                "recorded rather than repaired are listed in /verif/known_findings.jsonl and printed as KNOWN-FINDING lines (C08: D30, C18: D32).")
 
 CLAIMED = {
